@@ -359,6 +359,10 @@ func c07(w *core.World, r *core.Report) {
 	checkItemOffsets(w, r, "(*syncer.RedisOutput).parseAofCommand")
 
 	ruleUpdateCheckpoint(w, r, "R07.4", "R07.5")
+	r.Rule("R07.7", "an offset is never stored without its run id: on every path of the batch sender the offset field is queued together with the run id fields, or into a database known to hold them", 1)
+	if c != nil {
+		ruleOffsetWithRunId(w, r, c)
+	}
 	r.Rule("R07.6", "the replay's start offset is the cache reader's reported position, and that is the requested offset (log reader) or the snapshot's own offset", 3)
 	ruleReplayStartOffset(w, r)
 	r.Rule("R07.3", "full-sync completion stores the snapshot's offset (reader.Left()) and nothing else", 1)
@@ -1354,4 +1358,79 @@ func ruleReplayStartOffset(w *core.World, r *core.Report) {
 		}
 	}
 	ruleReaderLeft(w, r)
+}
+
+// ---------------------------------------------------------------- R07.7 an offset is never stored without its run id
+
+// ruleOffsetWithRunId: GetCheckpoint reads a database's record by the run
+// id's fields and prefers the database with the highest offset. An offset
+// field written into a database that holds no <runid>_runid field makes that
+// database win with an undefined run id, i.e. a restart without a usable
+// position. On every path of the batch sender that queues the offset field,
+// the run id must be queued in the same batch, or the database of the last
+// queued command must be known to hold it already.
+func ruleOffsetWithRunId(w *core.World, r *core.Report, c *senderCtx) {
+	isKeyCall := func(v ssa.Value, method string) bool {
+		call, ok := core.Unwrap(v).(*ssa.Call)
+		return ok && strings.HasSuffix(core.ResolveCall(call).Name, "CheckpointInfo)."+method)
+	}
+	putHas := func(s core.Site, method string) bool {
+		if s.Method != "Put" {
+			return false
+		}
+		if name, ok := core.CmdName(s); !ok || name != "hset" {
+			return false
+		}
+		args, ok := core.CmdArgs(s)
+		if !ok {
+			return false
+		}
+		for _, a := range args {
+			if isKeyCall(a, method) {
+				return true
+			}
+		}
+		return false
+	}
+	bad := ""
+	var badPos token.Pos
+	n := 0
+	okEnum := core.EnumPaths(c.once.Blocks[0], 0, 200000, func(p *core.Path) {
+		if bad != "" {
+			return
+		}
+		sites := pathSites(p)
+		for i, s := range sites {
+			if !putHas(s, "OffsetKey") {
+				continue
+			}
+			n++
+			withId := false
+			for _, q := range sites[:i] {
+				if putHas(q, "RunIdKey") {
+					withId = true
+				}
+			}
+			known := false
+			for _, fct := range p.Conds {
+				e, ok := core.Unwrap(fct.Cond).(*ssa.Extract)
+				if !ok || e.Index != 1 || !fct.Val {
+					continue
+				}
+				if lk, ok := e.Tuple.(*ssa.Lookup); ok && lk.CommaOk {
+					if _, isMap := lk.X.Type().Underlying().(*types.Map); isMap {
+						known = true // cpInDbs[lastCmd.Db] present
+					}
+				}
+			}
+			if !withId && !known {
+				bad, badPos = "the offset field is queued on a path that neither queues the run id fields nor knows that the current database already holds them (a checkpoint tick with an empty queue after the source switched databases): a restart reads that database as 'offset N of an unknown run' and resynchronises in full", s.Pos()
+			}
+		}
+	})
+	if !okEnum {
+		r.Undecided("sendCmdsBatch/offset-with-run-id", c.once.Pos(), "too many paths through the batch sender")
+		return
+	}
+	r.Check(bad == "" && n > 0, "sendCmdsBatch/offset-with-run-id", badPos, "%s", bad)
 }
